@@ -28,7 +28,7 @@ def bval(baddr, tag):
 
 class ConvHarness(Harness):
     def __init__(self, wf=16, wt=32, K=3, mode="both", naddr=None, lasts=(0, 1), wes=None, ops="RW", flush_free=False, idle_addr=0,
-                 wmin=3, rmin=6, qmax=3, aw=6, reverse=False):
+                 wmin=3, rmin=6, qmax=3, aw=6, reverse=False, high=False):
         from litedram.common import LiteDRAMNativePort
         from litedram.frontend.adapter import LiteDRAMNativePortConverter
         self.cfg = dict(wf=wf, wt=wt, K=K)
@@ -49,7 +49,11 @@ class ConvHarness(Harness):
         self.total_bytes = self.nfrom * self.bf
         assert self.total_bytes <= 32
         self.nto = self.total_bytes // self.bt
-        self.resp = Responder(c, [pt], wmin=wmin, rmin=rmin, qmax=qmax, mem_init=self.mem_init, addr_ok=lambda p, a: a < max(1, self.nto))
+        # high: the addressed window is the TOP of the user port's address range (all upper address bits set), not the bottom
+        self.off_from = ((1 << len(pf.cmd.addr)) - self.nfrom) if high else 0
+        self.off_to = (self.off_from * ratio if not up else self.off_from // ratio)
+        assert not high or ((not up or self.off_from % ratio == 0) and self.off_to + max(1, self.nto) <= (1 << len(pt.cmd.addr))), (self.off_from, self.off_to)
+        self.resp = Responder(c, [pt], wmin=wmin, rmin=rmin, qmax=qmax, mem_init=self.mem_init, addr_ok=lambda p, a: 0 <= a < max(1, self.nto), addr_base=self.off_to)
         full = (1 << self.bf) - 1
         wes = wes if wes is not None else ([full, 1] if self.bf > 1 else [1])
         alpha = [None]
@@ -103,7 +107,7 @@ class ConvHarness(Harness):
         I = list(self.base)
         cmd = pend if pend is not None else a
         if cmd is not None:
-            I[self.i_valid] = 1; I[self.i_addr] = cmd[1]
+            I[self.i_valid] = 1; I[self.i_addr] = cmd[1] + self.off_from
             if self.i_last is not None: I[self.i_last] = cmd[2]
             if self.i_we is not None: I[self.i_we] = 1 if cmd[0] == "W" else 0
         else:
@@ -237,6 +241,9 @@ def configs(tier):
         add("up-1:4-K3-writes", wf=8, wt=32, K=3, ops="W", lasts=(0,))
         add("down-2:1-K3", wf=32, wt=16, K=3, lasts=(0,))
         add("down-4:1-K2", wf=32, wt=8, K=2, lasts=(0,))
+        add("down-2:1-K3-high", wf=32, wt=16, K=3, lasts=(0,), high=True)          # top of the address range (upper address bits set)
+        add("down-4:1-K2-high", wf=32, wt=8, K=2, lasts=(0,), high=True)
+        add("up-1:2-K3-high", wf=16, wt=32, K=3, high=True)
         add("up-1:2-K2-flushfree", wf=16, wt=32, K=2, flush_free=True)
         add("up-1:2-K2-idlehigh", wf=16, wt=32, K=2, idle_addr=-1)
     else:
@@ -248,6 +255,8 @@ def configs(tier):
         add("down-2:1-K4", wf=32, wt=16, K=4, lasts=(0,))
         add("down-4:1-K3", wf=32, wt=8, K=3, lasts=(0,))
         add("down-8:1-K2", wf=64, wt=8, K=2, lasts=(0,), naddr=2)
+        add("down-8:1-K2-high", wf=64, wt=8, K=2, lasts=(0,), naddr=2, high=True)
+        add("up-1:8-K3-high", wf=8, wt=64, K=3, naddr=8, high=True)
         add("up-1:2-K3-flushfree", wf=16, wt=32, K=3, flush_free=True)
         add("up-1:2-K3-idlehigh", wf=16, wt=32, K=3, idle_addr=-1)
         add("up-1:2-K3-readmode", wf=16, wt=32, K=3, mode="read")
